@@ -52,9 +52,25 @@ const (
 	fmtB = formats.Format("text/verif-b")
 )
 
+// recBackend records the options the storage backend is handed.
+type recBackend struct {
+	storeOpts    []*storage.StoreOptions
+	retrieveOpts []*storage.RetrieveOptions
+}
+
+func (b *recBackend) Store(_ *sbom.Document, o *storage.StoreOptions) error {
+	b.storeOpts = append(b.storeOpts, o)
+	return nil
+}
+
+func (b *recBackend) Retrieve(_ string, o *storage.RetrieveOptions) (*sbom.Document, error) {
+	b.retrieveOpts = append(b.retrieveOpts, o)
+	return sbom.NewDocument(), nil
+}
+
 // ---- writer ---------------------------------------------------------------------------------
 var wKeys = []string{"format", "indent", "noclobber", "store-backend", "fo:" + "*nativefakes.FakeSerializer", "fo:other"}
-var wFallback = [][2]string{{"format", "0"}, {"indent", "1"}}
+var wFallback = [][2]string{{"format", "0"}, {"indent", "1"}, {"noclobber", "1"}, {"store-backend", "1"}}
 
 func wObserve(w *writer.Writer) []string {
 	ind, ncl, be := "", "", ""
@@ -77,6 +93,7 @@ func (r *Report) writerHistory(g *gen.G, cf *CasesFile) {
 	defer writer.UnregisterSerializer(fmtB)
 	defaults := [][2]string{{"format", ""}, {"indent", "4"}, {"noclobber", "false"}, {"store-backend", ""}}
 	var insts []*writer.Writer
+	wrec := &recBackend{}
 	var hist, obs, calls []string
 	var desc []any
 	steps := 2 + g.Int(7)
@@ -115,7 +132,9 @@ func (r *Report) writerHistory(g *gen.G, cf *CasesFile) {
 					specs = append(specs, optSpec{}, optSpec{})
 				}
 			}
-			insts = append(insts, writer.New(opts...))
+			nw := writer.New(opts...)
+			nw.Storage = wrec
+			insts = append(insts, nw)
 			hist = append(hist, "(HNew "+coqfmt.List(specs, coqOpt)+")")
 			desc = append(desc, map[string]any{"new_writer_with": specs})
 			r.Count("writer:new")
@@ -123,7 +142,37 @@ func (r *Report) writerHistory(g *gen.G, cf *CasesFile) {
 			i := g.Int(len(insts))
 			w := insts[i]
 			doc := sbom.NewDocument()
-			if g.Chance(0.5) && w.Options.Format != "" {
+			if g.Chance(0.3) {
+				// Store / StoreWithOptions against the recording backend
+				var pc [][2]string
+				n0 := len(wrec.storeOpts)
+				if g.Chance(0.5) {
+					_ = w.Store(doc) // the plain entry point hands the library defaults to the backend
+				} else {
+					b := g.Chance(0.5)
+					t := fmt.Sprintf("ps%d", g.Int(100))
+					_ = w.StoreWithOptions(doc, &writer.Options{StoreOptions: &storage.StoreOptions{NoClobber: b, BackendOptions: t}})
+					pc = append(pc, [2]string{"noclobber", fmt.Sprint(b)}, [2]string{"store-backend", t})
+				}
+				eff := []string{"-", "-", "", "", "-", "-"}
+				if len(wrec.storeOpts) > n0 {
+					if o := wrec.storeOpts[len(wrec.storeOpts)-1]; o != nil {
+						eff[2], eff[3] = fmt.Sprint(o.NoClobber), tok(o.BackendOptions)
+					}
+				}
+				hist = append(hist, fmt.Sprintf("(HCall %d%%nat (Some %s))", i, coqConf(pc)))
+				calls = append(calls, coqfmt.Strs(eff))
+				desc = append(desc, map[string]any{"store_on": i, "percall": pc, "effective": eff})
+				wantNC, wantBE := "false", ""
+				if len(pc) > 0 {
+					wantNC, wantBE = pc[0][1], pc[1][1]
+				}
+				ownW := wObserve(w)
+				if (eff[2] != wantNC || eff[3] != wantBE) && !(len(pc) == 0 && eff[2] == ownW[2] && eff[3] == ownW[3]) {
+					r.Fail(Failure{What: "a store handed the storage backend options that are neither the call's own nor the library defaults", Detail: fmt.Sprintf("no-clobber %s backend options %q, expected %s %q", eff[2], eff[3], wantNC, wantBE), Input: map[string]any{"history": desc}})
+				}
+				r.Count("writer:store")
+			} else if g.Chance(0.5) && w.Options.Format != "" {
 				nA, nB := fa.SerializeCallCount(), fb.SerializeCallCount()
 				err := w.WriteStream(doc, nopCloser{&bytes.Buffer{}})
 				eff := wEffective(fa, fb, nA, nB, err)
@@ -162,6 +211,10 @@ func (r *Report) writerHistory(g *gen.G, cf *CasesFile) {
 			all = append(all, coqfmt.Strs(wObserve(w)))
 		}
 		obs = append(obs, "["+strings.Join(all, "; ")+"]")
+		r.OracleEvals++
+		if fresh := wObserve(writer.New()); strings.Join(fresh, "|") != "|4|false|||" {
+			r.Fail(Failure{What: "a writer constructed without options does not have the documented defaults (the library defaults were changed by the history so far)", Detail: strings.Join(fresh, "|"), Input: map[string]any{"history": desc}})
+		}
 	}
 	// direct oracle: every instance's configuration equals defaults + its own options; a fresh writer has the defaults
 	r.OracleEvals++
@@ -202,6 +255,7 @@ func wEffective(fa, fb *nativefakes.FakeSerializer, nA, nB int, err error) []str
 
 // ---- reader ---------------------------------------------------------------------------------
 var rKeys = []string{"retrieve-backend", "fo:*nativefakes.FakeUnserializer", "fo:other"}
+var rFallback = [][2]string{{"retrieve-backend", "1"}}
 
 func rObserve(rd *reader.Reader) []string {
 	be := ""
@@ -217,6 +271,7 @@ func (r *Report) readerHistory(g *gen.G, cf *CasesFile) {
 	reader.RegisterUnserializer(fmtA, fu)
 	defer reader.UnregisterUnserializer(fmtA)
 	var insts []*reader.Reader
+	rrec := &recBackend{}
 	var hist, obs, calls []string
 	var desc []any
 	steps := 2 + g.Int(7)
@@ -243,13 +298,57 @@ func (r *Report) readerHistory(g *gen.G, cf *CasesFile) {
 					specs = append(specs, optSpec{}, optSpec{})
 				}
 			}
-			insts = append(insts, reader.New(opts...))
+			nr := reader.New(opts...)
+			nr.Storage = rrec
+			insts = append(insts, nr)
 			hist = append(hist, "(HNew "+coqfmt.List(specs, coqOpt)+")")
 			desc = append(desc, map[string]any{"new_reader_with": specs})
 			r.Count("reader:new")
 		} else {
 			i := g.Int(len(insts))
 			rd := insts[i]
+			if g.Chance(0.45) {
+				// Retrieve / RetrieveWithOptions against the recording backend
+				var pc [][2]string
+				n0 := len(rrec.retrieveOpts)
+				if g.Chance(0.6) {
+					_, _ = rd.Retrieve("some-id") // the plain entry point hands the library defaults to the backend
+				} else {
+					t := fmt.Sprintf("pr%d", g.Int(100))
+					_, _ = rd.RetrieveWithOptions("some-id", &reader.Options{RetrieveOptions: &storage.RetrieveOptions{BackendOptions: t}})
+					pc = append(pc, [2]string{"retrieve-backend", t})
+				}
+				eff := []string{"", "-", "-"}
+				if len(rrec.retrieveOpts) > n0 {
+					if o := rrec.retrieveOpts[len(rrec.retrieveOpts)-1]; o != nil {
+						eff[0] = tok(o.BackendOptions)
+					}
+				}
+				hist = append(hist, fmt.Sprintf("(HCall %d%%nat (Some %s))", i, coqConf(pc)))
+				calls = append(calls, coqfmt.Strs(eff))
+				desc = append(desc, map[string]any{"retrieve_on": i, "percall": pc, "effective": eff})
+				// what the backend is handed is the call's own options, or the library default (none) for the
+				// plain entry point: never what some instance was constructed with
+				wantBE := ""
+				if len(pc) > 0 {
+					wantBE = pc[0][1]
+				}
+				own := rObserve(rd)[0] // the property does not say whether the plain entry point uses the instance's own options or the library defaults
+				if eff[0] != wantBE && !(len(pc) == 0 && eff[0] == own) {
+					r.Fail(Failure{What: "a retrieve handed the storage backend options that are neither the call's own nor the library defaults", Detail: fmt.Sprintf("backend options %q, expected %q", eff[0], wantBE), Input: map[string]any{"history": desc}})
+				}
+				r.Count("reader:retrieve")
+				var all []string
+				for _, x := range insts {
+					all = append(all, coqfmt.Strs(rObserve(x)))
+				}
+				obs = append(obs, "["+strings.Join(all, "; ")+"]")
+				r.OracleEvals++
+				if fresh := rObserve(reader.New()); strings.Join(fresh, "|") != "||" {
+					r.Fail(Failure{What: "a reader constructed without options does not have the documented defaults (the library defaults were changed by the history so far)", Detail: strings.Join(fresh, "|"), Input: map[string]any{"history": desc}})
+				}
+				continue
+			}
 			o := &reader.Options{Format: fmtA}
 			pc := [][2]string{}
 			if g.Chance(0.5) {
@@ -280,7 +379,9 @@ func (r *Report) readerHistory(g *gen.G, cf *CasesFile) {
 	if strings.Join(fresh, "|") != "||" {
 		r.Fail(Failure{What: "a reader constructed without options does not have the documented defaults", Detail: strings.Join(fresh, "|"), Input: map[string]any{"history": desc}})
 	}
-	c := fmt.Sprintf("(mk_case18 [] %s [] [%s] [%s] [%s])", coqfmt.Strs(rKeys), strings.Join(hist, "; "), strings.Join(obs, "; "), strings.Join(calls, "; "))
+	c := fmt.Sprintf("(mk_case18 [] %s %s [%s] [%s] [%s])", coqfmt.Strs(rKeys),
+		coqfmt.List(rFallback, func(p [2]string) string { return "(" + coqfmt.Str(p[0]) + ", " + p[1] + ")" }),
+		strings.Join(hist, "; "), strings.Join(obs, "; "), strings.Join(calls, "; "))
 	cf.Add(c)
 	r.NoteCase(c, len(insts) >= 2, map[string]any{"kind": "reader", "history": desc})
 }
@@ -288,7 +389,7 @@ func (r *Report) readerHistory(g *gen.G, cf *CasesFile) {
 func runC18(seed int64, n int, dir string, tier string) *Report {
 	g := gen.New(seed)
 	rep := NewReport("C18", seed)
-	rep.Rule = "n writer histories and n reader histories of 2..8 steps: constructor calls with random subsets of the functional options (including nil arguments), interleaved with WriteStream / WriteStreamWithOptions / ParseStreamWithOptions on random instances against registered fake drivers that record the options they receive; after every step every live instance's option fields are read; non-trivial = at least two instances alive; distinct by hash"
+	rep.Rule = "n writer histories and n reader histories of 2..8 steps: constructor calls with random subsets of the functional options (including nil arguments), interleaved with WriteStream / WriteStreamWithOptions / Store / StoreWithOptions / ParseStreamWithOptions / Retrieve / RetrieveWithOptions on random instances against registered fake drivers and a storage backend that record the options they receive; after every step a freshly constructed instance is compared with the documented defaults; after every step every live instance's option fields are read; non-trivial = at least two instances alive; distinct by hash"
 	cf := &CasesFile{Imports: "Model.Base Model.Opts Corr.CheckC18", Type: "case18", Eval: "mismatches"}
 	for i := 0; i < n; i++ {
 		rep.writerHistory(g, cf)
